@@ -12,8 +12,8 @@ import (
 
 func init() {
 	register(&PropDef{
-		ID:    "C02",
-		Level: "other",
+		ID:          "C02",
+		Level:       "other",
 		Explanation: "Decided shapes behind 'at most once, only after dependencies': LAUNCH-GATE — in the scheduler every go statement that runs a stage lies on a path that observed ReadStatus()==Waiting and a true dependency check for that stage, and sets the stage Running in the scheduling goroutine before the go (so the next poll cannot relaunch it); the stage goroutine never sets Waiting; DEP-VERDICT — one iteration of the dependency loop is evaluated on every (status ∈ the upstream status constants) × allow_failure: ready survives only for Done, Skipped and Error∧allow; Error∧¬allow and Canceled additionally mark the stage Canceled; the loop ranges over all predecessors g.To(stage); STAGE-WIRING — each Stage/Task takes name, depends_on, allow_failure, script and env from the same element of the job's own task snapshot, stages are appended in slice order and handed to NewExecutionGraph, the snapshot is sorted by dependencies before use; CYCLE PATH — on the graph builder's error edge the start function stores the error, marks the job canceled, re-runs the dequeue and can reach neither the Start store nor the go statement; ONCE — one scheduling goroutine per start, a popped job cannot reappear (no lost update); GRAPH INPUT — the dependency lists the graph is built from are the definition's own slices (shared by reference): nothing in the module writes through them (no element store, in-place filter append, sort or copy, directly or in a callee), so the cycle check sees the depends_on that was defined.",
 		Trusted:     []string{"upstream ExecutionGraph cycle detection for stages added in topological order", "upstream Stage status accessors are atomic", "C13"},
 		NotDecided:  []string{"that the dependency sort is topological and the upstream graph accepts every DAG", "exactly-once on success beyond the launch gate"},
@@ -126,7 +126,9 @@ func launchGate(w *World, r *Report, rule string) {
 }
 
 func depVerdict(w *World, r *Report, rule string) {
-	cs := w.FuncByRole("taskctl", "checkStatus", func(f *ssa.Function) bool { return recvIs(f, "") && sigHas(f, []string{"scheduler.ExecutionGraph", "scheduler.Stage"}, []string{"bool"}) })
+	cs := w.FuncByRole("taskctl", "checkStatus", func(f *ssa.Function) bool {
+		return recvIs(f, "") && sigHas(f, []string{"scheduler.ExecutionGraph", "scheduler.Stage"}, []string{"bool"})
+	})
 	if cs == nil {
 		r.Undecided(rule, "taskctl.checkStatus", "-", "not found")
 		return
